@@ -171,7 +171,9 @@ int sh_mutex_init(sh_mutex* m) { m->id = ++next_mutex_id; m->owner = -1; return 
 void sh_mutex_free(sh_mutex* m) { (void)m; }
 /* creating a condition variable is a scheduling point too: in futex.c it sits between the value check of a wait and
  * the publication of the waiter, so a preemption here lets others run while the waiter is half registered */
+int sh_fail_cond_init(void) __attribute__((weak));   /* a driver may make the next initialisation fail (host resource exhaustion) */
 int sh_cond_init(sh_cond* c) {
+    if (sh_fail_cond_init && sh_fail_cond_init()) return 0;
     pthread_mutex_lock(&big);
     c->id = ++next_cond_id;
     if (current >= 0) schedule();
